@@ -4,6 +4,7 @@ import (
 	"fmt"
 	"math/rand"
 	"reflect"
+	"sort"
 	"strconv"
 	"strings"
 
@@ -89,6 +90,17 @@ func c24Gen(r *rand.Rand, n int, tier string, emit func(input ...string)) {
 			}
 			emit(c24IncCase([]byte{byte(a), 0xff})...)
 		}
+	}
+	// reflect.go: call sequences over struct types that print identically but carry different tags
+	for _, seq := range [][]int{{0, 1}, {1, 0}, {0, 1, 0}, {2, 3}, {3, 2}, {0, 2, 1, 3}, {4, 0, 4}, {1}, {3, 3}} {
+		emit(c24MigCase(seq)...)
+	}
+	for i := 0; i < n/40; i++ {
+		var seq []int
+		for j := 1 + r.Intn(4); j > 0; j-- {
+			seq = append(seq, r.Intn(len(c24Types)))
+		}
+		emit(c24MigCase(seq)...)
 	}
 	// reflect.go: tag lists for OpenTables / MigrateTables (uniqKeys)
 	tagPool := []string{"-", "2d", "61", "6162", "6163", "62", "00", "00ff", "ff", "ffff", "6100", "c3a9"}
@@ -187,7 +199,126 @@ func c24Uniq(tags []string) []string {
 	return append(obs, kv...)
 }
 
+// ---- MIG: several MigrateTables / OpenTables calls in ONE process on DIFFERENT struct types that
+// print identically (reflect.Type.String() == "main.tables": same-named types declared in different
+// function scopes).  Each call must bind every field to the prefix of ITS OWN tag.
+
+func c24TypesA() interface{} {
+	type tables struct {
+		A kvdb.Store `table:"a"`
+		E kvdb.Store `table:"e"`
+		N kvdb.Store
+	}
+	return &tables{}
+}
+func c24TypesB() interface{} {
+	type tables struct {
+		A kvdb.Store `table:"A"`
+		E kvdb.Store `table:"E"`
+		N kvdb.Store
+	}
+	return &tables{}
+}
+func c24TypesC() interface{} { // other field count, a skipped and an untagged field first
+	type tables struct {
+		S kvdb.Store `table:"-"`
+		N kvdb.Store
+		X kvdb.Store `table:"x"`
+	}
+	return &tables{}
+}
+func c24TypesD() interface{} {
+	type tables struct {
+		S kvdb.Store `table:"s"`
+		N kvdb.Store `table:"n"`
+		X kvdb.Store `table:"xy"`
+	}
+	return &tables{}
+}
+
+type c24TablesE struct { // a package-level type for comparison (prints "main.c24TablesE")
+	A kvdb.Store `table:"e1"`
+}
+
+var c24Types = []func() interface{}{c24TypesA, c24TypesB, c24TypesC, c24TypesD, func() interface{} { return &c24TablesE{} }}
+
+// c24TagsOf lists the table tags of a struct in field order ("" for an untagged field).
+func c24TagsOf(v interface{}) []string {
+	t := reflect.TypeOf(v).Elem()
+	var out []string
+	for i := 0; i < t.NumField(); i++ {
+		out = append(out, t.Field(i).Tag.Get("table"))
+	}
+	return out
+}
+
+// c24MigCase renders "MIG <typeIndex>:<tag>,<tag>,… …" for a sequence of calls.
+func c24MigCase(seq []int) []string {
+	in := []string{"MIG"}
+	for _, k := range seq {
+		var tags []string
+		for _, t := range c24TagsOf(c24Types[k]()) {
+			tags = append(tags, kvh.Tok([]byte(t)))
+		}
+		in = append(in, strconv.Itoa(k)+":"+strings.Join(tags, ","))
+	}
+	return in
+}
+
+// c24Mig: for every call, MigrateTables over a fresh memorydb, a probe write (key 6b, value = field
+// number) through every bound field, then the raw content of that store; then OpenTables over a
+// fresh memory producer and the names it opened.
+func c24Mig(calls []string) []string {
+	var obs []string
+	for _, c := range calls {
+		k, _ := strconv.Atoi(strings.SplitN(c, ":", 2)[0])
+		s := c24Types[k]()
+		vu.Stat("mig_type_" + reflect.TypeOf(s).Elem().String())
+		db := memorydb.New()
+		table.MigrateTables(s, db)
+		v := reflect.ValueOf(s).Elem()
+		n := 0
+		for i := 0; i < v.NumField(); i++ {
+			f := v.Field(i)
+			if f.IsNil() {
+				continue
+			}
+			n++
+			if err := f.Interface().(kvdb.Store).Put([]byte{0x6b}, []byte{byte(n)}); err != nil {
+				obs = append(obs, "ERR:put")
+			}
+		}
+		it := db.NewIterator(nil, nil)
+		var kv []string
+		cnt := 0
+		for it.Next() {
+			kv = append(kv, kvh.Tok(append([]byte{}, it.Key()...)), kvh.Tok(append([]byte{}, it.Value()...)))
+			cnt++
+		}
+		it.Release()
+		obs = append(obs, "I", strconv.Itoa(cnt))
+		obs = append(obs, kv...)
+		// OpenTables on a second instance of the same type
+		s2 := c24Types[k]()
+		p := memorydb.NewProducer("")
+		if err := table.OpenTables(s2, p, "b"); err != nil {
+			obs = append(obs, "O", "err")
+		} else {
+			names := p.Names()
+			sort.Strings(names)
+			obs = append(obs, "O", strconv.Itoa(len(names)))
+			for _, nm := range names {
+				obs = append(obs, kvh.Tok([]byte(nm)))
+			}
+		}
+	}
+	return obs
+}
+
 func c24Run(input []string) []string {
+	if len(input) > 0 && input[0] == "MIG" {
+		return c24Mig(input[1:])
+	}
 	if len(input) > 0 && input[0] == "UNIQ" {
 		return c24Uniq(input[1:])
 	}
